@@ -41,11 +41,11 @@ static void gen_centered_spectral(int k, int n, int p, const double *s, double *
 static void body(void) {
   int nb = 2 + vx_choose("blocks-2", 3);
   const int *w = TUP[nb - 2][vx_choose("widths", NTUP[nb - 2])];
-  static const int NS[3] = {5, 8, 30};
-  int n = NS[vx_choose("objects", 3)];
+  static const int NS[5] = {5, 8, 30, 6, 13};
+  int n = NS[vx_choose("objects", vx_thorough() ? 5 : 3)];
   int scaling = vx_choose("scaling", 6);
   double ratio = vx_choose("ratio", 2) ? 0.6 : 0.3;
-  int fam = vx_choose("fam", vx_thorough() ? 3 : 1);
+  int fam = vx_choose("fam", vx_thorough() ? 4 : 1);
   int nproc = vx_choose("nproc", 2) ? 3 : 1;
   int ptot = 0, minw = NC, col0[MAXB]; for (int b = 0; b < nb; b++) { col0[b] = ptot; ptot += w[b]; if (w[b] < minw) minw = w[b]; }
   int m = (n - 1) < ptot ? (n - 1) : ptot;
@@ -215,7 +215,7 @@ static void body(void) {
 int main(int argc, char **argv) {
   vg_seed(getenv("VERIF_SEED") ? atol(getenv("VERIF_SEED")) : 0);
   build_tuples();
-  vx_describe("alphabet", "blocks 2..4, widths all tuples over {1,2,3,5,8} with total <= 12 (%d/%d/%d tuples), objects {5,8,30}, scaling 0..5, X = U diag(ratio^i) V' (ratio .3|.6, U'1=0) scaled to min column SD 0.5 + offsets (1,-7.5,2.5,40), 1 [3] instances, npc 1..min(block width, rank), nproc {1,3}", NTUP[0], NTUP[1], NTUP[2]);
+  vx_describe("alphabet", "blocks 2..4, widths all tuples over {1,2,3,5,8} with total <= 12 (%d/%d/%d tuples), objects {5,8,30} [+6,13], scaling 0..5, X = U diag(ratio^i) V' (ratio .3|.6, U'1=0) scaled to min column SD 0.5 + offsets (1,-7.5,2.5,40), 1 [4] instances, npc 1..min(block width, rank), nproc {1,3}", NTUP[0], NTUP[1], NTUP[2]);
   vx_describe("oracle", "super score k = +/- reference principal score of Z=[E_b/sqrt(w_b)] within sigma_1*(5k*delta/(1-r)^2 + rounding floor), delta=sqrt(n*1e-18); total_expvar = 100 lambda_k/trace; |w|=1; super = block scores * weights; block loadings = E_b't/t't; block scores = E_b p_b/(|p_b| sqrt w_b) (convergence allowance); block_expvar in [0,100], non-decreasing, = cumulative fraction; CPCAScorePredictor(training) = super scores; secondarily library PCA(Z) with both allowances, keyed by lambda_k<10");
   vx_set_shard_depth(2);
   vx_expect_outcomes(300);   /* low on purpose: a library that breaks every fit must surface as violations, not as a vacuity error */
